@@ -38,7 +38,7 @@ class C07(Prop):
     quick_budget = 1500
     thorough_budget = 40000
     extractors = ["E2"]
-    all_branches = (["nest:2", "nest:3", "nest:4", "nest:all-issued", "energy:refused", "k:circuit_open", "k:cache_hit", "k:agent_exc", "k:gated_success", "k:gated_neither",
+    all_branches = (["set:gate", "set:cache", "set:agents", "nest:2", "nest:3", "nest:4", "nest:all-issued", "energy:refused", "k:circuit_open", "k:cache_hit", "k:agent_exc", "k:gated_success", "k:gated_neither",
                      "k:raised", "token", "cache:shrunk", "cache:replace-or-evict"]
                     + [f"act:{a}" for a in ("SUCCESS", "BLOCKED", "FAILURE", "SKIPPED", "ERROR")])
     assumptions = [
@@ -105,10 +105,16 @@ class C07(Prop):
                     else:
                         lines.append("adv " + str(rng.choice([1, ttl - 1, ttl, ttl + 1, 1_000_000, 999_999, 60_000_000])
                                                   if ttl > 1 else rng.choice([0, 1, 2])))
-                elif u < 0.96:
+                elif u < 0.94:
                     lines.append("clearcache")
-                else:
+                elif u < 0.97:
                     lines.append("resetcb")
+                else:   # a public attribute of the live loop is re-assigned
+                    k = rng.choice(["gate", "cache", "ttl", "breaker", "thr", "tmo", "agents", "agents"])
+                    v = {"gate": rng.choice(GATES), "cache": rng.choice([0, 1]), "ttl": rng.choice([TTL, 1_000_000, 1, 0]),
+                         "breaker": rng.choice([0, 1]), "thr": rng.choice([1, 2, 5]), "tmo": rng.choice([0, 1_000_000, 60_000_000]),
+                         "agents": 0}[k]
+                    lines.append(f"set {k} {v}")
             if rng.random() < 0.02:     # malformed stream: both sides must answer bad-op and carry on
                 lines.insert(rng.randrange(1, len(lines) + 1), rng.choice(["run 1 EXECUTE", "bogus", "cfg and 1", "adv", "run"]))
             yield {"lines": lines, "note": "random"}
@@ -288,6 +294,13 @@ class C07(Prop):
             if t[0] == "cfg" and len(t) in (7, 8, 9):
                 gate, cache_on = (t[1] if t[1] in GATES else "and"), t[5] == "1"
                 orig = {}
+                continue
+            if t[0] == "set" and len(t) == 3 and raw != "bad-op":
+                # the configuration the clauses are read with changes; what was cached stays the original of its prompt
+                if t[1] == "gate":
+                    gate = t[2] if t[2] in GATES else "and"
+                elif t[1] == "cache":
+                    cache_on = t[2] == "1"
                 continue
             if raw == "hang":
                 if t[0] == "nest":
